@@ -900,3 +900,10 @@ def refcell_borrow(r):
 
 def refcell_ref_deref(r):
     return r
+
+
+def usize_ne(a, b):
+    return D(a) != D(b)
+
+
+from .models2 import *      # noqa: E402,F401,F403  (extended API models)
